@@ -237,8 +237,10 @@ def _convert_and_check(case, workdir, rec, chk2plt):
             out = os.path.join(workdir, "out%d" % k)
             with vpool.controlled(plan) as ctl:
                 with audit.recording() as ev:
+                    # (the switches as a caller may hold them: built-in bools, NumPy bools - the result of a comparison - or 0 / 1)
+                    sp_ = [lambda v: v, lambda v: np.bool_(v), lambda v: int(v)][(k + d.get("ghost", 1)) % 3]
                     r = call(lambda: chk2plt(chk, target_plotfile=ref_plt, species=species if ref_plt is None else None,
-                                             gradp=gp, species_reactions=rx, floor_massfracs=fl, pltdir=out))
+                                             gradp=sp_(gp), species_reactions=sp_(rx), floor_massfracs=sp_(fl), pltdir=out))
             return ctl, (r, out, list(ev))
         runs = explorer.explore(run, bound=1) if case["schedules"] else [({},) + run({})]
         digests = set()
